@@ -1282,6 +1282,17 @@ func replay(p string) {
 	if err != nil {
 		harnessErr(err.Error())
 	}
+	var raw struct {
+		Artefact json.RawMessage `json:"artefact"`
+	}
+	if err := json.Unmarshal(b, &raw); err != nil {
+		harnessErr(err.Error())
+	}
+	var wf wFail
+	if err := json.Unmarshal(raw.Artefact, &wf); err == nil && wf.Part == "W" {
+		replayW(wf)
+		return
+	}
 	var a struct {
 		Key      string  `json:"key"`
 		Artefact violRec `json:"artefact"`
@@ -1395,7 +1406,10 @@ func main() {
 	}
 	r := ev.New("C16", "model_checking")
 	partE(r)
+	wDone := make(chan *wStats, 1)
+	go func() { wDone <- runPartW() }() // part W runs in the parent while the part-O workers are busy
 	partO(r)
+	reportPartW(r, <-wDone)
 	r.Assume("coordinators are fed sequentially (no concurrent events); event delivery itself (etcd/DNS/file discovery, connection manager) is modelled by the event alphabet, not executed")
 	r.Assume("groups {g1,g2,g3} with 2/1/2 configurations, nodes {n1,n2,n3}; histories up to the reported depth; entity values inside the stated alphabet")
 	r.Assume("trusted: cespare/xxhash as the hash; pbv1.MarshalTagValue as the entity value encoding (its injectivity is C12's subject)")
